@@ -8,7 +8,7 @@ from twisted.internet.address import IPv4Address
 from twisted.internet.testing import StringTransport
 
 from .. import boot, netsim
-from ..result import Result, h64
+from ..result import Result, h64, keep_going
 
 ID = 'C13'
 LEVEL = 'fault_enumeration'
@@ -396,7 +396,7 @@ def run_shard(spec):
     rng = random.Random(spec['seed'])
     w = get_world()
     n = 0
-    while res.elapsed() < spec['budget']:
+    while keep_going(res, spec):
         script = gen_script(rng)
         n += 1
         sims = [(None, run_script(w, script, res))]
